@@ -289,6 +289,7 @@ class Inliner:
         self.records = {}   # name of a new private record class -> (ClassDef, __init__, [field names])
         self.local_types = {}  # within the function being processed: local name -> record class name
         self.unique_new = {}
+        self.ctx_helpers = {}
 
     def _record_class(self, node):
         """(init, fields) when the class is a plain record the rules do not know: no bases but object, no decorators, a body of
@@ -374,6 +375,103 @@ class Inliner:
             if _eligible(m, private=False) and m.args.args:
                 out[name] = (cn, m)
         return out
+
+    def _ctx_helpers(self):
+        """new private @contextmanager generators of the shape  PRE...; try: yield [V] finally: POST   (or PRE...; yield [V]; POST-free):
+        (class name or None, name) -> (FunctionDef, pre statements, yielded value or None, post statements)"""
+        out = {}
+        if self.known is None:
+            return out
+
+        def shape(fn):
+            if not (len(fn.decorator_list) == 1 and isinstance(fn.decorator_list[0], (ast.Name, ast.Attribute))
+                    and (fn.decorator_list[0].id if isinstance(fn.decorator_list[0], ast.Name) else fn.decorator_list[0].attr) == "contextmanager"):
+                return None
+            a = fn.args
+            if a.vararg or a.kwarg or a.kwonlyargs or a.defaults:
+                return None
+            body = list(fn.body)
+            if body and isinstance(body[0], ast.Expr) and isinstance(body[0].value, ast.Constant) and isinstance(body[0].value.value, str):
+                body = body[1:]
+            if not body:
+                return None
+            pre, last = body[:-1], body[-1]
+            if any(isinstance(x, (ast.Yield, ast.YieldFrom, ast.Return)) for st in pre for x in ast.walk(st)):
+                return None
+            if isinstance(last, ast.Try) and not last.handlers and not last.orelse and len(last.body) == 1 and isinstance(last.body[0], ast.Expr) \
+                    and isinstance(last.body[0].value, ast.Yield) and not any(isinstance(x, (ast.Yield, ast.YieldFrom, ast.Return)) for st in last.finalbody for x in ast.walk(st)):
+                return fn, pre, last.body[0].value.value, last.finalbody
+            if isinstance(last, ast.Expr) and isinstance(last.value, ast.Yield):
+                return fn, pre, last.value.value, []
+            return None
+        for node in self.tree.body:
+            if isinstance(node, ast.FunctionDef) and node.name.startswith("_") and node.name not in self.known:
+                r = shape(node)
+                if r:
+                    out[(None, node.name)] = r
+            elif isinstance(node, ast.ClassDef):
+                for m in node.body:
+                    if isinstance(m, ast.FunctionDef) and m.name.startswith("_") and not m.name.startswith("__") and ("%s.%s" % (node.name, m.name)) not in self.known:
+                        r = shape(m)
+                        if r:
+                            out[(node.name, m.name)] = r
+        return out
+
+    def _expand_with(self, st, cls_name, self_name):
+        """`with <helper>(args) [as v]: BODY`  ->  parameters bound; PRE; [v = yielded value]; try: BODY finally: POST"""
+        if not (isinstance(st, ast.With) and len(st.items) == 1 and isinstance(st.items[0].context_expr, ast.Call)):
+            return None
+        call = st.items[0].context_expr
+        f = call.func
+        key, recv = None, None
+        if isinstance(f, ast.Name) and (None, f.id) in self.ctx_helpers:
+            key = (None, f.id)
+        elif isinstance(f, ast.Attribute) and isinstance(f.value, ast.Name) and cls_name is not None and f.value.id == self_name and (cls_name, f.attr) in self.ctx_helpers:
+            key, recv = (cls_name, f.attr), f.value
+        if key is None or call.keywords or any(isinstance(a, ast.Starred) for a in call.args):
+            return None
+        fn, pre, yielded, post = self.ctx_helpers[key]
+        params = [x.arg for x in fn.args.posonlyargs + fn.args.args]
+        mapping = {}
+        if recv is not None:
+            mapping[params[0]] = recv.id
+            params = params[1:]
+        if len(params) != len(call.args):
+            return None
+        self.counter += 1
+        suf = "__%s_%d" % (fn.name.strip("_"), self.counter)
+        prologue = []
+        for p_, a_ in zip(params, call.args):
+            if isinstance(a_, (ast.Name, ast.Constant)):
+                mapping[p_] = a_.id if isinstance(a_, ast.Name) else a_
+                continue
+            new = p_ + suf
+            mapping[p_] = new
+            asg = ast.Assign(targets=[ast.Name(id=new, ctx=ast.Store())], value=a_)
+            for y in ast.walk(asg):
+                ast.copy_location(y, call)
+            prologue.append(asg)
+        locals_ = {x.id for b_ in pre + post for x in ast.walk(b_) if isinstance(x, ast.Name) and isinstance(x.ctx, (ast.Store, ast.Del))}
+        for l in locals_:
+            mapping.setdefault(l, l + suf)
+        ren = _Rename(mapping)
+        pre2 = [ren.visit(copy.deepcopy(s_)) for s_ in pre]
+        post2 = [ren.visit(copy.deepcopy(s_)) for s_ in post]
+        body = list(st.body)
+        if st.items[0].optional_vars is not None:
+            yv = ren.visit(copy.deepcopy(yielded)) if yielded is not None else ast.Constant(value=None)
+            asg = ast.Assign(targets=[st.items[0].optional_vars], value=yv)
+            for y in ast.walk(asg):
+                if not hasattr(y, "lineno"):
+                    ast.copy_location(y, st)
+            body = [asg] + body
+        if post2:
+            new_st = ast.Try(body=body, handlers=[], orelse=[], finalbody=post2)
+            ast.copy_location(new_st, st)
+            tail = [new_st]
+        else:
+            tail = body
+        return prologue + pre2 + tail
 
     def _header_fields(self, st):
         if isinstance(st, (ast.Expr, ast.Return)) and st.value is not None:
@@ -578,6 +676,13 @@ class Inliner:
                 changed = True
                 i += 1   # skip the new def; the statement itself is re-examined below on the next round
                 continue
+            if self.ctx_helpers:
+                exp = self._expand_with(st, cls_name, self_name)
+                if exp is not None:
+                    stmts[i:i + 1] = exp
+                    self.expanded += 1
+                    changed = True
+                    continue
             hit = self._find(st, cls_name, self_name)
             if hit is not None:
                 new = self._expand(st, *hit)
@@ -756,7 +861,8 @@ class Inliner:
     def run(self):
         self.collect()
         self.unique_new = self._unique_new_methods()
-        if not self.funcs and not self.methods and not self.records and not self.unique_new:
+        self.ctx_helpers = self._ctx_helpers()
+        if not self.funcs and not self.methods and not self.records and not self.unique_new and not self.ctx_helpers:
             return self.tree
         for node in self.tree.body:
             if isinstance(node, (ast.FunctionDef, ast.AsyncFunctionDef)):
@@ -787,6 +893,15 @@ class Inliner:
                         node.body.remove(fn)
                         if not node.body:
                             node.body.append(ast.copy_location(ast.Pass(), node))
+        for (cn, name), (fn, _pre, _y, _post) in list(self.ctx_helpers.items()):
+            if not referenced(name, fn):
+                for node in self.tree.body:
+                    if node is fn:
+                        self.tree.body.remove(fn)
+                        break
+                    if isinstance(node, ast.ClassDef) and fn in node.body:
+                        node.body.remove(fn)
+                        break
         for kname, (node, init, fields) in self.records.items():
             if node in self.tree.body and not any(isinstance(x, ast.Name) and x.id == kname for x in ast.walk(self.tree)) \
                     and not any(isinstance(x, ast.Constant) and x.value == kname for x in ast.walk(self.tree)):
